@@ -1,19 +1,24 @@
 #!/bin/sh
 # Build the framework offline from files on disk: regenerate the Lean tables from /repo, build the
-# Lean models, proofs and the zmodel driver, build the Go harness against /repo.
-set -e
+# Lean models and the zmodel driver (required), every property's proof module (each on its own: one
+# that does not build is reported by that property's check, it must not take the others down), and the
+# Go harness against /repo.
 cd "$(dirname "$0")"
 export GOFLAGS=-mod=mod GOPROXY=off GOSUMDB=off GOTOOLCHAIN=local
 mkdir -p build
-
 python3 - <<'PY'
 import sys
 sys.path.insert(0, ".")
 from vlib import core
-for n, ok, out in core.regen(lambda m: print(m)):
-    if not ok:
-        print("setup: regeneration step failed:", n); sys.exit(1)
+bad = [n for n, ok, out in core.regen(lambda m: print(m)) if not ok]
+if bad:
+    print("setup: WARNING: regeneration items failed (charged to the properties that depend on them):", bad)
 PY
-(cd lean && lake build)
-(cd go && go build -tags verif -o ../build/harness ./cmd/harness)
+(cd lean && lake build zmodel) || { echo "setup: zmodel does not build"; exit 1; }
+for f in lean/Proofs/Properties/*.lean; do
+  m=$(basename "$f" .lean)
+  (cd lean && lake build "Proofs.Properties.$m" >/dev/null 2>&1) && echo "setup: Proofs.Properties.$m ok" || echo "setup: WARNING: Proofs.Properties.$m does not build (its check will report it)"
+done
+(cd go && go build -tags verif -o ../build/harness ./cmd/harness) || echo "setup: WARNING: full harness does not build (checks fall back to per-property harnesses)"
+[ -x tools/setup_extra.sh ] && tools/setup_extra.sh
 echo "setup: done"
